@@ -214,6 +214,84 @@ def run(ctx):
                 f'(argsort of it / scatter), not gathered with it again, and an un-gathered '
                 f'sequence must not be gathered at all'), where(fn, e.node))
 
+    # ---- R20h: channels are ranked by the raw coefficients ---------------------------------
+    # the function forces hard (arg-max) sampling and runs a forward pass first, so the sampled
+    # coefficients theta_alpha are one-hot: as scores they tie every non-member at 0 and the
+    # reassignment picks by index order.  The score matrix must be the raw alpha.
+    forced_hard = False
+    n_sc = 0
+    for p in returning(paths(repo, fn)):
+        for e in p.calls():
+            t = e.data[0]
+            mc = method_call(t)
+            if mc and mc[1] == 'update_softmax_options' and \
+                    (arg(t, None, 'hard') == ('const', True) or
+                     (len(mc[2]) > 1 and mc[2][1] == ('const', True))):
+                forced_hard = True
+            if callee(t) == ra.qualname and len(t[2]) > 1:
+                sc = t[2][1]
+                raw = mentions(sc, lambda x: x[0] == 'attr' and x[2] == 'alpha')
+                sampled = mentions(sc, lambda x: x[0] == 'attr' and x[2] == 'theta_alpha')
+                key = show(sc)
+                if key in seen:
+                    continue
+                seen[key] = True
+                n_sc += 1
+                ok = raw and not sampled
+                ctx.ob('R20h', 'optimize_prec_assignment ranks channels by the raw coefficients',
+                       ok, f'scores = {short(sc, 80)}' if ok else
+                       f'the score matrix handed to _reassign_precisions is {short(sc, 80)}'
+                       + (': the sampled coefficients are one-hot here (hard sampling is forced '
+                          'at the top of the function), every channel outside a precision ties '
+                          'at 0 and the channel promoted is chosen by index, so a channel of the '
+                          'wrong source precision is promoted and the intended one is demoted'
+                          if sampled else ', not the raw alpha of the quantizer'),
+                       where(fn, e.node))
+    ctx.floor('R20h', 'score arguments', n_sc, 1)
+    ctx.note(f'R20h: hard sampling forced before the search: {forced_hard}')
+
+    # ---- R20g: candidate configurations are priced at the right bit-widths ----------------
+    # a helper that zips its share argument with layer.<q>.precision (original order) must be
+    # given shares in the original order
+    n_calls = 0
+    helpers = {}
+    for f in repo.all_functions():
+        if f.module is not fn.module or f is fn:
+            continue
+        for k, prm in enumerate(f.params):
+            zipped = False
+            for q in paths(repo, f):
+                for e in q.calls():
+                    t = e.data[0]
+                    if is_call(t, 'builtins.zip') and len(t[2]) == 2 and \
+                            ('param', prm) in t[2] and any(
+                                x[0] == 'attr' and x[2] == 'precision' for x in t[2]):
+                        zipped = True
+            if zipped:
+                helpers[f.qualname] = (f, k)
+    seen_states = {}
+    for p in returning(paths(repo, fn)):
+        for e in p.calls():
+            t = e.data[0]
+            c = callee(t)
+            if c in helpers and len(t[2]) > helpers[c][1]:
+                a = t[2][helpers[c][1]]
+                st = perm_state(a, P)
+                seen_states.setdefault((helpers[c][0].name, st, getattr(e.node, 'lineno', 0)),
+                                       (e, a))
+    for (hname, st, ln), (e, a) in sorted(seen_states.items()):
+        n_calls += 1
+        ok = st == 'ORIG'
+        ctx.ob('R20g', f'optimize_prec_assignment shares priced by {hname} '
+               f'+{ln - fn.node.lineno} are {st}', ok,
+               'shares in the order of layer.w_mps_quantizer.precision' if ok else
+               f'{hname} pairs its share argument with layer.w_mps_quantizer.precision in the '
+               f'original order, but receives {short(a, 100)} in '
+               f'{"sorted" if st == "SORTED" else "doubly permuted"} order: for a precision '
+               f'tuple that is not ascending every candidate is priced at the wrong bit-widths, '
+               f'so a configuration that raises the cost can be kept', where(fn, e.node))
+    ctx.floor('R20g', 'pricing call sites', n_calls, 3)
+
     # ---- R20d -----------------------------------------------------------------------------
     n_loops = 0
     defs = {}
